@@ -101,7 +101,10 @@ def cmsg(m):
 
 
 # ---------------------------------------------------------------- case generation (in-process)
-NAMES = [b"a", b"bb", b"prog", b"libc.so.6", b"x-1", b"t_2"]
+# module base names (the .sym/.dbg files are named after them): any valid single path component - leading dots (a
+# wrapped executable `.prog-wrapped`, a hidden library `.libx.so`), several dots, "..x", blanks, long names
+NAMES = [b"a", b"bb", b"prog", b"libc.so.6", b"x-1", b"t_2", b".prog-wrapped", b".libx.so", b"..x", b"...", b"a.b.c.d",
+         b"has space", b"-dash", b"%s", b".", b"n" * 200, b".h" * 120, b"UTF-\xc3\xa9"]
 
 
 def rbytes(rng, n):
@@ -154,6 +157,10 @@ def gen_client(rng, idx, dirname, big=False):
     if rng.random() < 0.2:
         files[b"events.txt"] = rbytes(rng, 9)
         ops.append(("meta", b"events.txt"))
+    if rng.random() < 0.2:          # a log file (--logfile NAME): any name the user chose, e.g. a dot file
+        lname = rng.choice([b".uftrace.log", b"rec.log", b"..log", b".x", b"l" * 240])
+        files[lname] = rbytes(rng, rng.choice([0, 5, 30]))
+        ops.append(("meta", lname))
     wpat = rng.choice([[NOCAP], [8, NOCAP], [8, 4, NOCAP], [12, NOCAP], [1], [7, 9], [3, 0, -1, 8, 1, 100],
                        [4, -1, 4, -1, 20], None, None])
     if wpat is None:
@@ -720,6 +727,13 @@ def gen_raw(rng):
         ("meta-namelen>len", [good_dir, hdr(106, 6) + be32(9) + b"ab", end]),
         ("meta-len<4+namelen", [good_dir, hdr(106, 5) + be32(3) + b"abcd", end]),
         ("meta-ok", [good_dir, hdr(106, 4 + 3 + 2) + be32(3) + b"f.x" + b"hi", end]),
+        ("meta-name-dotfile", [good_dir, hdr(106, 4 + 10 + 2) + be32(10) + b".hid.x.sym" + b"hi", end]),
+        ("meta-name-../x", [good_dir, hdr(106, 4 + 11 + 2) + be32(11) + b"../evil.txt" + b"hi", data(5, b"ok"), end]),
+        ("meta-name-sub/x", [good_dir, hdr(106, 4 + 9 + 2) + be32(9) + b"sub/x.sym" + b"hi", data(5, b"ok"), end]),
+        ("meta-name-dot", [good_dir, hdr(106, 4 + 1 + 2) + be32(1) + b"." + b"hi", data(5, b"ok"), end]),
+        ("meta-name-dotdot", [good_dir, hdr(106, 4 + 2 + 2) + be32(2) + b".." + b"hi", data(5, b"ok"), end]),
+        ("meta-name-empty", [good_dir, hdr(106, 4 + 0 + 2) + be32(0) + b"hi", data(5, b"ok"), end]),
+        ("meta-name-abs", [good_dir, hdr(106, 4 + 12 + 2) + be32(12) + b"/nonexist/xx" + b"hi", data(5, b"ok"), end]),
         ("info-len<40", [good_dir, hdr(105, 12) + b"0123456789ab", end]),
         ("end-only", [end]),
         ("empty-stream", []),
@@ -744,6 +758,7 @@ def run_raw(exe, r, root):
     r["server_exit"] = int(m.group(1)) if m else -9
     r["died"] = (r["server_exit"] != 0)
     r["got"] = snap(os.path.join(srv, r["dir"].decode()))
+    r["outside"] = sorted(x for x in os.listdir(srv) if x != r["dir"].decode())
     r["wire"] = b"".join(r["raw"])
     shutil.rmtree(root, ignore_errors=True)
 
@@ -912,13 +927,14 @@ class LocalCapture(threading.Thread):
         return out
 
 
-def norm_dir(uft, objdir, path, analysis=True, sort_replay=False, variant="plain"):
+def norm_dir(uft, objdir, path, analysis=True, sort_replay=False, variant="plain", aslr=False):
     """normalised view of a recorded directory: EVERY file of the directory, name -> bytes, with only the
     documented run-to-run differences removed (pids, timestamps, session ids, addresses of ASLR'd modules,
     pointer-valued arguments); <tid>.dat files are reduced to the sequence of second words (type/depth/addr),
     or - when records carry argument payloads - to their size plus the replay output"""
     out = {}
-    aopts, with_args = VARIANTS[variant][1], VARIANTS[variant][2]
+    aopts, with_args = VARIANTS[variant][1], VARIANTS[variant][2] or aslr    # aslr: records of a shared library's functions
+                                                                             # carry addresses that change from run to run
     perf_recs = []
     if not os.path.isdir(path):
         return None
@@ -1114,7 +1130,7 @@ def e2e_round(ctx, objdir, progs, rnd, spec):
         rdir = os.path.join(root, "srv", "net%d.data" % i)
         cap, rcv = {}, {}
         for n, vers in c.versions().items():
-            if n == "default.opts" or n.startswith(".") or n.endswith(".dat"):
+            if n == "default.opts" or n == ".channel" or n.endswith(".dat"):
                 continue
             got = open(os.path.join(rdir, n), "rb").read() if os.path.isfile(os.path.join(rdir, n)) else None
             if n.endswith(".map") and len(vers) < 2:
@@ -1138,8 +1154,10 @@ def e2e_round(ctx, objdir, progs, rnd, spec):
                       "(%s): %s" % (", ".join(r[3] for r in runs), srvout[-200:]),
                       {"mode": "e2e", "case": {"spec": spec, "recv_output": srvout[-400:], "variant": [r[3] for r in runs]}}, True)
     for i, (extra, prog, kind, variant) in enumerate(runs):
-        loc = norm_dir(uft, objdir, os.path.join(root, "cwd%d" % i, "local.data"), sort_replay=(kind == "mt"), variant=variant)
-        net = norm_dir(uft, objdir, os.path.join(root, "srv", "net%d.data" % i), sort_replay=(kind == "mt"), variant=variant)
+        loc = norm_dir(uft, objdir, os.path.join(root, "cwd%d" % i, "local.data"), sort_replay=(kind == "mt"), variant=variant,
+                       aslr=(kind == "dotname"))
+        net = norm_dir(uft, objdir, os.path.join(root, "srv", "net%d.data" % i), sort_replay=(kind == "mt"), variant=variant,
+                       aslr=(kind == "dotname"))
         meta = {"round": rnd, "clients": k, "client": i, "kind": kind, "variant": variant, "prog": prog[1:], "record_rc": rcs[i][0],
                 "record_out": rcs[i][1], "recv_output": srvout[-300:], "spec": spec,
                 "local_files": sorted(x.decode() for x in (loc or {})),
@@ -1148,6 +1166,7 @@ def e2e_round(ctx, objdir, progs, rnd, spec):
         out.append((digest_dir(loc) or {}, digest_dir(net), meta))
         tags = ["e2e:clients=%d" % k, "e2e:" + kind, "e2e:variant=" + variant] + \
             (["e2e:metadata-file-size=" + ("k*64K" if int(kind[3:]) % 65536 == 0 else "k*64K-1")] if kind.startswith("sym") else []) + \
+            (["e2e:module-names-with-leading-dot"] if kind == "dotname" else []) + \
             ["e2e:chunk=%d" % c for c in relay.chunks if c in (1, 7, 8, 9, 65536)] + \
             ["e2e:file-kind=" + x for x in sorted(set(
                 "dbg" if n.endswith(b".dbg") else "sym" if n.endswith(b".sym") else "perf" if n.startswith(b"perf-") else
@@ -1464,6 +1483,20 @@ def build_sized_prog(ctx, objdir, target):
     return None
 
 
+def build_dot_prog(ctx):
+    """a traced executable `.t-wrapped` linked with a shared library `.libx.so` (wrapper scripts and hidden libraries
+    are named like that): their symbol files are `.t-wrapped.sym` and `.libx.so.sym`"""
+    root = os.path.join(ctx.scratch, "prog", "dot")
+    os.makedirs(root, exist_ok=True)
+    open(os.path.join(root, "libx.c"), "w").write("int libx_twice(int x) { return 2 * x; }\nint libx_inc(int x) { return libx_twice(x) + 1; }\n")
+    open(os.path.join(root, "t.c"), "w").write("int libx_inc(int);\nint foo(int x) { return libx_inc(x); }\n"
+                                                "int main(void) { return foo(1) + foo(2) < 0; }\n")
+    sh(["gcc", "-pg", "-g", "-fPIC", "-shared", "-o", os.path.join(root, ".libx.so"), os.path.join(root, "libx.c")], check=True)
+    sh(["gcc", "-pg", "-g", "-no-pie", "-O0", "-o", os.path.join(root, ".t-wrapped"), os.path.join(root, "t.c"),
+        "-L" + root, "-l:.libx.so", "-Wl,-rpath," + root], check=True)
+    return os.path.join(root, ".t-wrapped")
+
+
 def e2e_progs(ctx, objdir):
     """the traced programs and a symbol directory for --with-syms (the .sym/.dbg files of a --srcline recording)"""
     ps, pm = build_progs(ctx)
@@ -1476,7 +1509,7 @@ def e2e_progs(ctx, objdir):
         for n in os.listdir(tmp) if rc == 0 else []:
             if n.endswith((".sym", ".dbg")):
                 shutil.copy(os.path.join(tmp, n), os.path.join(symdir, n))
-    progs = {"single": ps, "mt": pm, "symdir": symdir}
+    progs = {"single": ps, "mt": pm, "symdir": symdir, "dotname": build_dot_prog(ctx)}
     for target in ctx.n([65536], [65536, 131072, 65535]):
         exe = build_sized_prog(ctx, objdir, target)
         if exe is None:
@@ -1508,6 +1541,9 @@ def e2e(ctx, objdir):
         if sized and rnd < max(1, len(sized)):
             # a symbol file of exactly k * 64 KiB (+-1): a metadata file at a size where a chunking sender may slip
             runs.append([sized[rnd % len(sized)], [], [], ctx.rng.choice(["plain", "srcline"])])
+        if rnd == 1 or (rnd > 2 and rnd % 4 == 1):
+            # modules whose base names start with a dot: .t-wrapped.sym, .libx.so.sym (and .dbg with --srcline)
+            runs.append(["dotname", [], [], ctx.rng.choice(["plain", "srcline", "auto-args"])])
         spec = {"relay_seed": ctx.rng.randrange(1 << 30), "runs": runs, "stagger": ctx.rng.choice([0.0, 0.0, 0.02])}
         results += e2e_round(ctx, objdir, progs, rnd, spec)
     e2e_verdict(ctx, results)
@@ -1715,7 +1751,7 @@ def run(ctx):
     objdir, exe = setup(ctx)
     rng = ctx.rng
     # 1. small in-process cases, full model comparison
-    nsmall = ctx.n(100, 1600)
+    nsmall = ctx.n(90, 1600)
     cases = [gen_reset_case(rng, i) if i % 10 == 7 else gen_overlap_case(rng, i) if i % 10 == 3 else
              gen_threads_case(rng, i) if i % 10 == 1 else gen_vanish_case(rng, i) if i % 10 == 9 else
              gen_case(rng, i, reuse=(i % 9 == 4)) for i in range(nsmall)]
@@ -1737,6 +1773,13 @@ def run(ctx):
     for r in raws:
         run_raw(exe, r, os.path.join(ctx.scratch, "raw"))
         ctx.case(key=("raw", r["tag"], tuple(r["rsched"])), nontrivial=len(r["raw"]) > 0, tags=["raw:" + r["tag"]])
+    for r in raws:
+        if r.get("outside") and r["tag"].startswith("meta-name"):
+            ctx.violation("C16 violated: a client made `uftrace recv` write outside that client's directory: %s (stream: %s)"
+                          % (r["outside"], r["tag"]),
+                          {"mode": "raw", "raw": {"tag": r["tag"], "chunks": [x.hex() for x in r["raw"]], "rsched": r["rsched"],
+                                                  "dir": r["dir"].hex()}, "outside": r["outside"]}, True)
+            break
     bad = evaluate_raw(ctx, raws)
     if bad:
         r = raws[bad[0]]
